@@ -31,6 +31,9 @@ struct Explorer {
   double deadline = 1e18;
   bool deadline_hit = false;
   std::set<uint32_t> expanded;
+  std::vector<double> literals;
+  std::map<uint32_t, std::vector<double>> site_roots;
+  std::vector<double> last_roots;
   std::set<uint64_t> sigs;
   std::vector<Violation> viols;
   std::vector<std::string> samples;
@@ -90,6 +93,27 @@ struct Explorer {
     } else {
       o.p = P.shot(f, true);
       o.ctx = P.ctx;
+      // without a model the return-address chain is all there is, and the optimiser merges the call sites of
+      // sibling branches (cross-jumping): refine each context with the previous context and the decision bucket
+      // of the previous deviate = its rank among the thresholds discovered at the previous site (none for
+      // continuous draws, so only real decisions split contexts)
+      if (!literals.empty()) {
+        vx::Source src{&f, PHASE};
+        uint32_t prev_refined = 0, prev_raw = 0;
+        for (size_t i = 0; i < o.ctx.size(); i++) {
+          uint32_t raw = o.ctx[i];
+          uint32_t refined = raw;
+          if (i > 0) {
+            uint32_t bucket = 0;
+            auto it = site_roots.find(prev_refined);
+            if (it != site_roots.end()) bucket = (uint32_t)(std::upper_bound(it->second.begin(), it->second.end(), src.at(i - 1)) - it->second.begin());
+            refined = ((raw ^ (prev_raw * 2654435761u)) * 16777619u) ^ (bucket * 40503u + 1u);
+          }
+          o.ctx[i] = refined;
+          prev_refined = refined;
+          prev_raw = raw;
+        }
+      }
     }
     if (count) {
       execs++;
@@ -191,7 +215,11 @@ struct Explorer {
     Ev e = P.shot(f, true);
     uint64_t h = 1469598103934665603ULL;
     for (auto cx : P.ctx) h = (h ^ cx) * 1099511628211ULL;
-    for (auto cd : e.code) h = (h ^ (uint64_t)cd) * 1099511628211ULL;
+    for (size_t k = 0; k < e.code.size(); k++) {
+      h = (h ^ (uint64_t)e.code[k]) * 1099511628211ULL;
+      // photon energies are discrete in every scheme (gamma / X-ray lines): they tell K, L and M conversion apart
+      if (e.code[k] == 1) h = (h ^ (uint64_t)std::llround(kin(1, e.px[k], e.py[k], e.pz[k]) * 1e7)) * 1099511628211ULL;
+    }
     h = (h ^ (e.horizon ? 7 : 1)) * 1099511628211ULL;
     return h;
   }
@@ -201,13 +229,22 @@ struct Explorer {
                                   0.55, 0.6, 0.65, 0.7, 0.75, 0.8, 0.85, 0.9, 0.95, 0.98, 0.99, 0.997, 0.999, 0.9999, 1 - 1e-6, 1 - 1e-9};
     const int G = sizeof grid / sizeof grid[0];
     std::vector<Root> roots;
+    // decision literals scanned from the nuclide's source file (branching ratios compared against a draw):
+    // a branch narrower than the grid spacing is reached through its literal
     Forced f = base;
+    for (double l : literals) {
+      f[i] = l * (1 - 1e-6);
+      uint64_t s1 = port_sig(f);
+      f[i] = l * (1 + 1e-6);
+      if (port_sig(f) != s1) roots.push_back({l, true});
+    }
+    size_t nlit = roots.size();
     std::vector<uint64_t> sg(G);
     for (int k = 0; k < G; k++) {
       f[i] = grid[k];
       sg[k] = port_sig(f);
     }
-    for (int k = 0; k + 1 < G && roots.size() < 24; k++) {
+    for (int k = 0; k + 1 < G && roots.size() < 24 + nlit; k++) {
       if (sg[k] == sg[k + 1]) continue;
       double lo = grid[k], hi = grid[k + 1];
       uint64_t slo = sg[k];
@@ -230,6 +267,9 @@ struct Explorer {
     bool model = use_ref && R.available;
     std::vector<Root> roots = model ? discover(base, i) : discover_port(base, i);
     nthr += (long)roots.size();
+    last_roots.clear();
+    for (auto & r : roots) last_roots.push_back(r.u);
+    std::sort(last_roots.begin(), last_roots.end());
     for (auto & r : roots) {
       for (int side = -1; side <= 1; side += 2) {
         double delta = model ? 1e-7 : 1e-6;
@@ -280,6 +320,7 @@ struct Explorer {
           work.push_back(g);
           edges++;
         }
+        if (!literals.empty()) site_roots[o.ctx[i]] = last_roots;
       }
     }
     layer_execs["A"] = execs - before;
@@ -398,6 +439,7 @@ struct Opts {
   double deadline = 600;
   double etol = 0.003;
   int phases = 1;
+  std::string litdir;
 };
 
 static std::string cfg_json(const Config & c)
@@ -417,6 +459,14 @@ static std::string run_config(const Config & c, const Opts & o)
   X.deadline = t0 + o.deadline;
   X.P.via_gen = o.via_gen;
   E_TOL = o.etol;
+  if (!o.litdir.empty()) {
+    std::string base = c.name.substr(0, c.name.find('+'));
+    std::ifstream lf(o.litdir + "/" + base + ".lit");
+    double v;
+    while (lf >> v)
+      if (v > 0 && v < 1) X.literals.push_back(v);
+    std::sort(X.literals.begin(), X.literals.end());
+  }
   std::string initdiff;
   double table_rel = 0;
   int ier = -1;
@@ -510,7 +560,8 @@ static std::string run_config(const Config & c, const Opts & o)
     if (port_ok) {
       p1 = X.P.shot(v.forced);
       p2 = X.P.shot(v.forced);
-      bool same = p1.code == p2.code && p1.px == p2.px && p1.t == p2.t && p1.ndraws == p2.ndraws;
+      auto biteq = [](const std::vector<double> & x, const std::vector<double> & y) { return x.size() == y.size() && (x.empty() || memcmp(x.data(), y.data(), x.size() * sizeof(double)) == 0); };
+      bool same = p1.code == p2.code && biteq(p1.px, p2.px) && biteq(p1.t, p2.t) && p1.ndraws == p2.ndraws;
       rep = same ? "deterministic" : "NONDETERMINISTIC";
     }
     js << (k ? "," : "") << "{\"oracle\":" << jstr(v.oracle) << ",\"why\":" << jstr(v.why) << ",\"forced\":" << vx::forced_to_json(v.forced) << ",\"margin\":" << jnum(v.margin)
@@ -558,6 +609,7 @@ int main(int argc, char ** argv)
     else if (a == "--ccap") o.ccap = atol(nxt().c_str());
     else if (a == "--deadline") o.deadline = atof(nxt().c_str());
     else if (a == "--etol") o.etol = atof(nxt().c_str());
+    else if (a == "--litdir") o.litdir = nxt();
     else if (a == "--horizon") HORIZON = atol(nxt().c_str());
     else if (a == "--timeout") per_cfg_timeout = atof(nxt().c_str());
     else if (a == "--replay") replay = nxt();
